@@ -2,6 +2,7 @@ CONSTANT Mode = "mixed"
 CONSTANT MaxSteps = 2
 CONSTANT MaxZero = 1
 CONSTANT RowCounts = {3, 4}
+CONSTANT PadCounts = {}
 CONSTANT NGen = 3
 SPECIFICATION Spec
 INVARIANT TypeOK
